@@ -14,12 +14,14 @@ import (
 	"encoding/binary"
 	"encoding/json"
 	"fmt"
+	"math/big"
 	"math/rand"
 	"testing"
 
 	"github.com/icon-project/goloop/common"
 	"github.com/icon-project/goloop/common/codec"
 	"github.com/icon-project/goloop/common/crypto"
+	"github.com/icon-project/goloop/common/db"
 	"github.com/icon-project/goloop/module"
 	"github.com/icon-project/goloop/service/txresult"
 
@@ -68,6 +70,9 @@ func (f *foreign) Merge(module.LogsBloom)       {}
 func (f *foreign) Equal(module.LogsBloom) bool  { return false }
 
 type world struct {
+	viaRcpt bool // the receipt blooms r1, r2 live inside real receipts (txresult.NewReceipt ... AddLog)
+	dbase   db.Database
+	rcpts   map[string]txresult.Receipt
 	rnd    *rand.Rand
 	addrs  map[string]module.Address
 	vals   map[string][]byte
@@ -113,8 +118,25 @@ func (w *world) refBytes(ref string) []byte {
 	return w.val(ref)
 }
 
+func (w *world) receipt(id string) txresult.Receipt {
+	if r, ok := w.rcpts[id]; ok {
+		return r
+	}
+	to := make([]byte, 21)
+	w.rnd.Read(to)
+	to[0] = 1
+	r := txresult.NewReceipt(w.dbase, module.LatestRevision, common.MustNewAddress(to))
+	w.rcpts[id] = r
+	return r
+}
+
 func (w *world) bloom(id string) *txresult.LogsBloom {
 	if b, ok := w.blooms[id]; ok {
+		return b
+	}
+	if w.viaRcpt && id != "blk" {
+		b := w.receipt(id).LogsBloom().(*txresult.LogsBloom)
+		w.blooms[id] = b
 		return b
 	}
 	b := txresult.NewLogsBloom(nil)
@@ -215,12 +237,65 @@ func (w *world) checkBits(s step) (string, string, string) {
 	return "", "", div
 }
 
+// collect merges the blooms of the block's receipts into the block bloom; in receipt mode the receipts are
+// finalized, stored in a real receipt list, read back from its hash and the STORED receipts' blooms are merged
+func (w *world) collect(blk *txresult.LogsBloom) error {
+	if !w.viaRcpt {
+		blk.Merge(w.asArg(w.bloom("r1")))
+		blk.Merge(w.asArg(w.bloom("r2")))
+		return nil
+	}
+	var rs []txresult.Receipt
+	for i, id := range []string{"r1", "r2"} {
+		r := w.receipt(id)
+		st := module.StatusSuccess
+		if i == 1 && w.rnd.Intn(2) == 0 {
+			st = module.StatusReverted
+		}
+		r.SetResult(st, big.NewInt(int64(1000+w.rnd.Intn(1000))), big.NewInt(12500000000), nil)
+		rs = append(rs, r)
+	}
+	rl := txresult.NewReceiptListFromSlice(w.dbase, rs)
+	if err := rl.Flush(); err != nil {
+		return fmt.Errorf("receipt list flush: %v", err)
+	}
+	rl2 := txresult.NewReceiptListFromHash(w.dbase, rl.Hash())
+	n := 0
+	for it := rl2.Iterator(); it.Has(); it.Next() {
+		r, err := it.Get()
+		if err != nil {
+			return fmt.Errorf("stored receipt %d unreadable: %v", n, err)
+		}
+		if !r.LogsBloom().Equal(rs[n].LogsBloom()) {
+			return fmt.Errorf("bloom of stored receipt %d differs from the bloom of the receipt: %x vs %x", n, r.LogsBloom().Bytes(), rs[n].LogsBloom().Bytes())
+		}
+		blk.Merge(r.LogsBloom())
+		n++
+	}
+	if n != len(rs) {
+		return fmt.Errorf("receipt list returns %d of %d receipts", n, len(rs))
+	}
+	return nil
+}
+
 func (w *world) run(steps []step) (key, what, div string) {
 	for i, s := range steps {
 		lb := w.bloom(s.B)
 		switch s.Op {
 		case "addlog":
-			lb.AddLog(w.addr(s.A), w.logOf(s.Vs))
+			if w.viaRcpt && s.B != "blk" {
+				data := make([][]byte, w.rnd.Intn(3))
+				for j := range data {
+					data[j] = []byte{byte(j), 0x55}
+				}
+				w.receipt(s.B).AddLog(w.addr(s.A), w.logOf(s.Vs), data)
+			} else {
+				lb.AddLog(w.addr(s.A), w.logOf(s.Vs))
+			}
+		case "collect":
+			if err := w.collect(lb); err != nil {
+				return "bloom:collect", fmt.Sprintf("step %d: %v", i, err), ""
+			}
 		case "additem":
 			if s.Item.T == "addr" {
 				lb.AddAddressOfLog(w.addr(s.Item.A))
@@ -239,7 +314,9 @@ func (w *world) run(steps []step) (key, what, div string) {
 			if !n.Equal(lb) || !lb.Equal(n) || !n.Contain(lb) {
 				return "bloom:roundtrip:" + s.Kind, fmt.Sprintf("step %d: bloom %s is not preserved by the %s round trip: %x -> %x", i, s.B, s.Kind, lb.Bytes(), n.Bytes()), ""
 			}
-			w.blooms[s.B] = n
+			if !(w.viaRcpt && s.B != "blk") {
+				w.blooms[s.B] = n
+			}
 		case "contain", "query", "querylog":
 			var q *txresult.LogsBloom
 			switch s.Op {
@@ -286,11 +363,11 @@ func TestReplay(t *testing.T) {
 		for _, s := range steps {
 			fmt.Fprintf(&sig, "%s:%s:%s:%s:%v:%v:%s;", s.Op, s.B, s.B2, s.A, s.Vs, s.Item, s.Kind)
 			switch s.Op {
-			case "addlog", "additem", "merge":
+			case "addlog", "additem", "merge", "collect":
 				writes++
 			}
 		}
-		w := &world{rnd: rnd, addrs: map[string]module.Address{}, vals: map[string][]byte{}, blooms: map[string]*txresult.LogsBloom{}}
+		w := &world{viaRcpt: rnd.Intn(2) == 0, dbase: db.NewMapDB(), rcpts: map[string]txresult.Receipt{}, rnd: rnd, addrs: map[string]module.Address{}, vals: map[string][]byte{}, blooms: map[string]*txresult.LogsBloom{}}
 		key, what, div := w.run(steps)
 		fpos += w.fpos
 		switch {
